@@ -194,7 +194,9 @@ def _judge(ctx, root, case, sign, orig_signed, keyid, hk, top_name, top, h, sign
                                   '(no secret key yet) but save reported success', case)
                     return
                 h.import_key(keys.PRIVATE_KEY)
-                m.save_manifests(force=True)
+                # (the retry is an ordinary save half the time: what was pending when
+                # the first one failed must still be pending)
+                m.save_manifests(force=bool(case.get('retry_forced', True)))
                 ctx.count('late_retries')
             else:
                 m.save_manifests(force=case.get('force', False))
@@ -352,6 +354,7 @@ def gen_case(rng, root):
         # (no re-compression: what a loader holds after a save that failed half-way
         # through renaming Manifests is not defined by any property)
         case['watermark'] = None
+        case['retry_forced'] = rng.random() < 0.5
     subs = [m for m, md in layout['mans'].items() if md['parent'] is not None]
     if subs and rng.random() < 0.25:
         # a sub-Manifest that carries a valid cleartext signature of its own on disk
